@@ -43,6 +43,30 @@ def run(ctx):
   tearfree_sketchy(ctx)
   oco_fd(ctx)
   unfoldings(ctx)
+  thin_svd(ctx)
+
+
+def thin_svd(ctx):
+  """R2b: every sketch refresh uses the THIN singular value decomposition (full_matrices=False): the retained directions
+  are then the first k columns / rows of a factor whose second dimension is min(d, m); with the full decomposition the
+  factor shapes - and what `[:k]` / the cut-off index select - change."""
+  from ..lib import kwarg
+  m = ctx.model
+  n = 0
+  for mod, q in ((MOD, '_fd_update_root'), ('tearfree.sketchy', '_update_axis'), ('oco.algorithms', '_fd_update_fn')):
+    fi = m.func(mod, q)
+    ev = evaluator(m)
+    r = ev.run(fi)
+    svds = {x for x in walk(r) if is_ext_call(x, 'jax.numpy.linalg.svd')}
+    for sc_ in ev.scopes.values():
+      for v_ in sc_.vars.values():
+        svds |= {x for x in walk(v_) if is_ext_call(x, 'jax.numpy.linalg.svd')}
+    ctx.need('C09.R2', len(svds), 1, f'svd call in {q}')
+    for S in svds:
+      fm = kwarg(S, 'full_matrices')
+      n += 1
+      ctx.ob('C09.R2', fi.short, 'thin SVD', fm is not None and is_const(fm, False),
+             'the sketch must be refreshed from the thin SVD (full_matrices=False)', ctx.loc(fi), sample='svd(x, full_matrices=False)')
 
 
 # ------------------------------------------------------------------ helpers
